@@ -93,9 +93,13 @@ package lexer
 //@     decreases len(l.expression) - next
 //@     bound len(l.expression)
 
+// white space between tokens is exactly space, tab, line feed and carriage return (C04)
+//@ ghost wsByte(c Int) Bool = c == 32 || c == 9 || c == 10 || c == 13
+
 //@ func Lexer.Next
 //@   loop 1
 //@     invariant 0 <= l.position && l.position < len(l.expression) && l.position >= old(l.position) && l.expression == old(l.expression)
+//@     invariant[C04] whitespace: forall k Int :: old(l.position) <= k && k < l.position ==> wsByte(l.expression[k])
 //@     decreases len(l.expression) - l.position
 //@     bound len(l.expression)
 
